@@ -22,6 +22,7 @@ What is generated (everything derived from the CURRENT tree under `repo`):
     object against "defines a global symbol it should not".
 """
 import itertools
+import json
 import os
 import random
 import re
@@ -36,7 +37,11 @@ from concurrent.futures import ThreadPoolExecutor
 VERIF = os.path.dirname(os.path.dirname(os.path.abspath(__file__)))
 TPL = os.path.join(VERIF, 'clients')
 WORKERS = 16
-CLIENT_CFLAGS = ['-Wall', '-Wextra', '-std=c99', '-pedantic', '-D_POSIX_C_SOURCE=199309L']
+# the project's flags for clients + -pedantic-errors: diagnostics ISO C99 requires (constraint violations) are
+# errors; ordinary -Wall/-Wextra warnings stay counters
+CLIENT_CFLAGS = ['-Wall', '-Wextra', '-std=c99', '-pedantic', '-pedantic-errors', '-D_POSIX_C_SOURCE=199309L']
+PP_CFLAGS = ['-std=c99', '-D_POSIX_C_SOURCE=199309L']
+PUBLIC_MACRO = re.compile(r'^(DECLARE_CSTL_|CSTL_)')
 SAN = ['-g', '-fsanitize=address,undefined', '-fno-sanitize=nonnull-attribute',
        '-fno-sanitize-recover=all', '-fno-omit-frame-pointer']
 EXCLUDED_HEADERS = ('_string.h',)       # guard-less template instantiated by string.h
@@ -163,6 +168,83 @@ def parse_aux(path, incdir):
 
 # --------------------------------------------------------------------------- source generation
 
+def parse_macros(text, incdir):
+    """`gcc -dD -E` output -> ordered [(name, file basename, body)] of macros defined by files under incdir/cstl
+    and still defined at the end of the TU (an #undef removes the entry)"""
+    pre = os.path.join(os.path.realpath(incdir), 'cstl') + os.sep
+    cur = None
+    live = {}
+    order = []
+    for line in text.splitlines():
+        m = re.match(r'# \d+ "([^"]*)"', line)
+        if m:
+            f = m.group(1)
+            cur = os.path.basename(f) if os.path.realpath(f).startswith(pre) else None
+            continue
+        m = re.match(r'#\s*define\s+([A-Za-z_]\w*)(\([^)]*\))?\s*(.*)$', line)
+        if m and cur is not None:
+            if m.group(1) not in live:
+                order.append(m.group(1))
+            live[m.group(1)] = (cur, m.group(3).strip())
+            continue
+        m = re.match(r'#\s*undef\s+([A-Za-z_]\w*)', line)
+        if m and m.group(1) in live:
+            del live[m.group(1)]
+            order.remove(m.group(1))
+    return [(n, live[n][0], live[n][1]) for n in order]
+
+
+def load_macro_table():
+    try:
+        return json.load(open(os.path.join(TPL, 'macros.json')))
+    except (OSError, ValueError):
+        return None
+
+
+def gen_macro_section(macros, table, declared):
+    """expand every listed public macro as file-scope static, automatic and static-local object (clients/macros.json)
+    -> (lines, number of expansions); the section uses nothing but the cstl headers (no system header, no NULL,
+    no offsetof of its own)"""
+    L = ['/* ---- every public macro the included headers define themselves, expanded BEFORE any system header:',
+         ' *      %s */' % (' '.join(macros) or '(none)')]
+    pre_done = []
+    fs, au, sl, q = [], [], [], []
+    nexp = 0
+    k = 0
+    for mac in macros:
+        ent = table.get(mac) or {}
+        for pk in ent.get('preludes', []):
+            if pk not in pre_done:
+                pre_done.append(pk)
+                L.append(table['_preludes'][pk])
+        for e in ent.get('exprs', []):
+            fs.append('static const int c18m_fx_%d = (%s);' % (k, e))
+            q.append('    bad += (%s) ? 1 : 0;' % e)
+            q.append('    bad += c18m_fx_%d;' % k)
+            nexp += 2
+            k += 1
+        for u in ent.get('uses', []):
+            have = all(n in declared for n in u.get('needs', []))
+            for lst, pfx, sto, ind in ((fs, 'fs', 'static ', ''), (au, 'au', '', '    '), (sl, 'sl', 'static ', '    ')):
+                name = 'c18m_%s_%d' % (pfx, k)
+                lst.append('%s%s%s;' % (ind, sto, u['decl'].replace('{name}', name)))
+                if have and u.get('query'):
+                    q.append('    bad += %s ? 1 : 0;' % u['query'].replace('{name}', name))
+                else:
+                    q.append('    bad += ((const void *)&%s == (const void *)0) ? 1 : 0;' % name)
+                nexp += 1
+            k += 1
+    L += fs
+    L.append('static int c18_macros(void)')
+    L.append('{')
+    L.append('    int bad = 0;')
+    L += au + sl + q
+    L.append('    return bad;')
+    L.append('}')
+    L.append('/* ---- end of the macro section */')
+    return L, nexp
+
+
 def load_snippets():
     """-> {header: (needs, text)} from clients/use_<header>.c"""
     sn = {}
@@ -179,14 +261,17 @@ def load_snippets():
     return sn
 
 
-def gen_source(headers, role, table_funcs, use_headers, snippets, declared):
+def gen_source(headers, role, table_funcs, use_headers, snippets, declared, macro_lines=None):
     """headers: include order; table_funcs: function names whose address is stored;
-    use_headers: headers whose use-snippet is pasted (if its needs are all declared)"""
+    use_headers: headers whose use-snippet is pasted (if its needs are all declared);
+    macro_lines: the macro section (gen_macro_section), placed before the first system include"""
     L = ['/* generated by verif C18 (lib/clients.py); role=%s; includes in this order: %s */'
          % (role, ' '.join(headers))]
     for h in headers:
         L.append('#include "cstl/%s"' % h)
     L.append('/* nothing but the cstl headers above this line */')
+    L += macro_lines if macro_lines is not None else ['static int c18_macros(void)', '{', '    return 0;', '}']
+    L.append('/* system headers the client itself needs (offsetof, size_t, printf) come only now */')
     L.append('#include <stddef.h>')
     L.append('#include <stdlib.h>')
     if role == 'addr':
@@ -225,6 +310,9 @@ def gen_source(headers, role, table_funcs, use_headers, snippets, declared):
     L.append('    }')
     if role == 'addr':
         L.append('    printf("c18: %u function addresses stored\\n", n);')
+    L.append('    if (c18_macros() != 0) {')
+    L.append('        return 91;')
+    L.append('    }')
     for idx, h in enumerate(used):
         L.append('    if (c18_use_%s() != 0) {' % hname(h))
         L.append('        return %d;' % (100 + idx))
@@ -340,6 +428,8 @@ class Pipeline:
                 cmd += ['-c', src, '-o', obj]
                 rc, out = sh(cmd)
                 res[opt] = (cmd, rc, out, obj)
+            prc, pout = sh(['gcc'] + PP_CFLAGS + ['-I' + inc, '-dD', '-E', src])
+            res['macros'] = parse_macros(pout, inc) if prc == 0 else None
             return nm, hs, res
         with ThreadPoolExecutor(max_workers=WORKERS) as ex:
             results = list(ex.map(one, jobs))
@@ -418,6 +508,35 @@ class Pipeline:
                          '%s:%d: %s %s (defined in header)' % (f['file'], f['line'], f['storage'], n),
                          {'client': 'bare', 'check': 'non-static-definition', 'symbol': n,
                           'desc': 'declaration list of the bare includes'})
+        # public macros (from the preprocessor: gcc -dD -E), owned like the functions
+        mac_by = dict((nm, res.get('macros')) for nm, hs, res in results)
+        self.own_macros = {}
+        known = self.macro_table
+        skip = set(known.get('_skip', [])) if known else set()
+        allpub = []
+        for h in self.headers:
+            lst = mac_by.get(hname(h))
+            if lst is None:
+                lst = [x for x in (mac_by.get('all') or []) if x[1] == h]
+            names = []
+            for n, f, body in lst:
+                if not (f == h or f not in pub) or not PUBLIC_MACRO.match(n):
+                    continue
+                if (body == '' and n.endswith('_H')) or n in skip:      # include guard / helper
+                    continue
+                names.append(n)
+                if n not in allpub:
+                    allpub.append(n)
+            self.own_macros[h] = names
+        self.all_macros = allpub
+        if known is None:
+            self.infra.append('clients/macros.json missing or unreadable: public macros cannot be expanded')
+        else:
+            unknown = [n for n in allpub if n not in known]
+            if unknown:
+                self.infra.append('public macro(s) %s defined by the headers but unknown to clients/macros.json: '
+                                  'add an invocation template (the table is stale)' % ' '.join(unknown))
+        self.count('public-macros', len(allpub))
         self.count('headers', len(self.headers))
         self.count('declared-functions', len(self.all_funcs))
         self.count('declared-extern-functions', len(self.extern_decl))
@@ -551,8 +670,19 @@ class Pipeline:
                     for n in self.own.get(h, []):
                         if n not in table:
                             table.append(n)
+            if o['role'] == 'addr':
+                macs = list(self.all_macros)
+            else:
+                macs = []
+                for h in sorted(set(o['headers'])):
+                    for n in self.own_macros.get(h, []):
+                        if n not in macs:
+                            macs.append(n)
+            macs = [n for n in macs if self.macro_table and n in self.macro_table]
+            mlines, nexp = gen_macro_section(macs, self.macro_table or {}, declared)
+            o['nexp'] = nexp
             text, skipped = gen_source(list(o['headers']), o['role'], table, sorted(set(o['headers'])),
-                                       self.snippets, declared)
+                                       self.snippets, declared, mlines)
             o['table'] = table
             o['skipped'] = skipped
             if o['src'] not in written:         # one source per (headers, role); shared by the -O/-fsanitize variants
@@ -576,6 +706,7 @@ class Pipeline:
             self.count('snippets.skipped', o['skipped'])
             if o['rc'] == 0:
                 self.count('objects.compiled')
+                self.count('macro-expansions-compiled', o['nexp'])
                 continue
             if self.is_infra(o['rc'], o['out']):
                 self.infra.append('compiler failure (not a diagnostic): %s' % o['out'][-300:])
@@ -700,7 +831,7 @@ class Pipeline:
                 elif rc == 127 and 'error while loading shared libraries' in (out or ''):
                     what, msg = 'load-failed', 'could not be loaded: ' + out.strip()[:160]
                 else:
-                    what, msg = 'exit-nonzero', ('returned %d (90: address table incomplete; 100+i / 228+i: use snippet i '
+                    what, msg = 'exit-nonzero', ('returned %d (90: address table incomplete; 91: an object declared through a public macro is not empty; 100+i / 228+i: use snippet i '
                                                  'failed in the first / second TU)' % rc)
                 self.violate('run.%s.%s%s' % (what, c['name'], bn),
                              '%s %s' % (self.cfg_desc(c), msg), c['idx'], trace, out, extra,
@@ -823,6 +954,7 @@ class Pipeline:
         if self.only is not None and self.only.get('opt') in ('-O0', '-O2'):
             self.opts = [self.only['opt']]
         self.snippets = load_snippets()
+        self.macro_table = load_macro_table()
         self.scratch = tempfile.mkdtemp(prefix='verif-c18-')
         try:
             ok, msg = build_project(self.repo, self.scratch, self.verbose)
